@@ -595,7 +595,8 @@ class _Unmarshaller:
     def load_unicode(self):
         n = self.r_long()
         s = self._read(n)
-        ret = s.decode("utf8")
+        # marshal writes text with the "surrogatepass" error handler
+        ret = s.decode("utf8", "surrogatepass") if PYTHON3 else s.decode("utf8")
         return ret
 
     dispatch[TYPE_UNICODE] = load_unicode
@@ -922,7 +923,8 @@ class _FastUnmarshaller:
     def load_unicode(self):
         n = _r_long(self)
         s = _read(self, n)
-        ret = s.decode("utf8")
+        # marshal writes text with the "surrogatepass" error handler
+        ret = s.decode("utf8", "surrogatepass") if PYTHON3 else s.decode("utf8")
         return ret
 
     dispatch[TYPE_UNICODE] = load_unicode
